@@ -4,6 +4,8 @@ package consul
 
 import (
 	"context"
+	"reflect"
+	"sync"
 	"fmt"
 	"io"
 	"net"
@@ -12,6 +14,7 @@ import (
 	"sync/atomic"
 	"time"
 
+	"github.com/hashicorp/consul-net-rpc/net/rpc"
 	"github.com/hashicorp/go-hclog"
 	"github.com/hashicorp/go-uuid"
 	"github.com/hashicorp/raft"
@@ -75,8 +78,140 @@ const (
 
 const VerifMgmtToken = "d9f05e83-a7ae-47ce-839e-c0d53a68c00a"
 
+// verifStale makes the PRIMARY answer the AllowStale batch reads of a replication round
+// (ACL.PolicyBatchRead / ACL.TokenBatchRead) the way a server that lags behind the one which
+// answered the list request would. net/rpc sends the reply from inside the handler, so the reply
+// cannot be edited afterwards; instead the server-side call interceptor of the real primary puts
+// the OLDER stored version of the chosen objects (or their absence) into the primary's state
+// store just for the duration of that one call - with the old ModifyIndex, straight into memdb,
+// no Raft entry - lets the real endpoint answer from it, and restores the current versions.
+// The secondary's round code, the endpoint and the wire path are untouched.
+type verifStale struct {
+	mu       sync.Mutex
+	srv      *Server
+	policies map[string]*structs.ACLPolicy
+	tokens   map[string]*structs.ACLToken
+	hits     int
+	err      error
+}
+
+func (v *verifStale) swapPolicies(ids []string) func() {
+	st := v.srv.fsm.State()
+	var restore structs.ACLPolicies
+	for _, id := range ids {
+		old, chosen := v.policies[id]
+		if !chosen {
+			continue
+		}
+		_, cur, err := st.ACLPolicyGetByID(nil, id, nil)
+		if err != nil || cur == nil {
+			continue
+		}
+		v.hits++
+		restore = append(restore, cur)
+		if old != nil {
+			err = st.ACLPolicyBatchSet(old.ModifyIndex, structs.ACLPolicies{old.Clone()})
+		} else {
+			err = st.ACLPolicyBatchDelete(cur.ModifyIndex, []string{id})
+		}
+		if err != nil {
+			v.err = err
+		}
+	}
+	return func() {
+		for _, cur := range restore {
+			if err := st.ACLPolicyBatchSet(cur.ModifyIndex, structs.ACLPolicies{cur.Clone()}); err != nil {
+				v.err = err
+			}
+		}
+	}
+}
+
+func (v *verifStale) swapTokens(ids []string) func() {
+	st := v.srv.fsm.State()
+	opts := state.ACLTokenSetOptions{AllowMissingPolicyAndRoleIDs: true}
+	var restore structs.ACLTokens
+	for _, id := range ids {
+		old, chosen := v.tokens[id]
+		if !chosen {
+			continue
+		}
+		_, cur, err := st.ACLTokenGetByAccessor(nil, id, nil)
+		if err != nil || cur == nil {
+			continue
+		}
+		v.hits++
+		restore = append(restore, cur)
+		if old != nil {
+			err = st.ACLTokenBatchSet(old.ModifyIndex, structs.ACLTokens{old.Clone()}, opts)
+		} else {
+			err = st.ACLTokenBatchDelete(cur.ModifyIndex, []string{id})
+		}
+		if err != nil {
+			v.err = err
+		}
+	}
+	return func() {
+		for _, cur := range restore {
+			if err := st.ACLTokenBatchSet(cur.ModifyIndex, structs.ACLTokens{cur.Clone()}, opts); err != nil {
+				v.err = err
+			}
+		}
+	}
+}
+
+func (v *verifStale) interceptor(recorder *middleware.RequestRecorder) rpc.ServerServiceCallInterceptor {
+	base := middleware.GetNetRPCInterceptor(recorder)
+	return func(method string, argv, replyv reflect.Value, handler func() error) {
+		if method != "ACL.PolicyBatchRead" && method != "ACL.TokenBatchRead" {
+			base(method, argv, replyv, handler)
+			return
+		}
+		v.mu.Lock() // held until the current versions are back: ClearStale waits for it
+		defer v.mu.Unlock()
+		restore := func() {}
+		if v.srv != nil {
+			arg := argv.Interface()
+			if argv.Kind() != reflect.Ptr && argv.CanAddr() {
+				arg = argv.Addr().Interface()
+			}
+			switch a := arg.(type) {
+			case *structs.ACLPolicyBatchGetRequest:
+				if len(v.policies) > 0 {
+					restore = v.swapPolicies(a.PolicyIDs)
+				}
+			case *structs.ACLTokenBatchGetRequest:
+				if len(v.tokens) > 0 {
+					restore = v.swapTokens(a.AccessorIDs)
+				}
+			}
+		}
+		base(method, argv, replyv, handler)
+		restore()
+	}
+}
+
+// SetStale installs the lagging-server view for the next batch reads (nil value = the lagging
+// server does not have the object); ClearStale removes it and reports how many objects of
+// batch-read replies were replaced or dropped meanwhile.
+func (vp *VerifPair) SetStale(policies map[string]*structs.ACLPolicy, tokens map[string]*structs.ACLToken) {
+	vp.stale.mu.Lock()
+	defer vp.stale.mu.Unlock()
+	vp.stale.policies, vp.stale.tokens, vp.stale.hits = policies, tokens, 0
+}
+
+func (vp *VerifPair) ClearStale() (int, error) {
+	vp.stale.mu.Lock()
+	defer vp.stale.mu.Unlock()
+	vp.stale.policies, vp.stale.tokens = nil, nil
+	err := vp.stale.err
+	vp.stale.err = nil
+	return vp.stale.hits, err
+}
+
 type VerifPair struct {
 	P, S    *Server // primary (dc1), secondary (dc2)
+	stale   *verifStale
 	cleanup []func()
 	logf    io.Closer
 }
@@ -139,7 +274,11 @@ func verifConfig(dir, dc string) (*Config, []int, error) {
 	return config, ports, nil
 }
 
-func verifDeps(c *Config, logger hclog.InterceptLogger, cleanup *[]func()) (Deps, error) {
+func verifDeps(c *Config, logger hclog.InterceptLogger, cleanup *[]func(), stale *verifStale) (Deps, error) {
+	icpt := middleware.GetNetRPCInterceptor
+	if stale != nil {
+		icpt = stale.interceptor
+	}
 	tls, err := tlsutil.NewConfigurator(c.TLSConfig, logger)
 	if err != nil {
 		return Deps{}, err
@@ -185,19 +324,19 @@ func verifDeps(c *Config, logger hclog.InterceptLogger, cleanup *[]func()) (Deps
 		}),
 		LeaderForwarder:          rb,
 		NewRequestRecorderFunc:   middleware.NewRequestRecorder,
-		GetNetRPCInterceptorFunc: middleware.GetNetRPCInterceptor,
+		GetNetRPCInterceptorFunc: icpt,
 		EnterpriseDeps:           EnterpriseDeps{},
 		XDSStreamLimiter:         limiter.NewSessionLimiter(),
 		Registry:                 NewTypeRegistry(),
 	}, nil
 }
 
-func verifServer(c *Config, logger hclog.InterceptLogger, cleanup *[]func()) (*Server, error) {
+func verifServer(c *Config, logger hclog.InterceptLogger, cleanup *[]func(), stale *verifStale) (*Server, error) {
 	c.ACLResolverSettings.ACLsEnabled = c.ACLsEnabled
 	c.ACLResolverSettings.NodeName = c.NodeName
 	c.ACLResolverSettings.Datacenter = c.Datacenter
 	c.ACLResolverSettings.EnterpriseMeta = *c.AgentEnterpriseMeta()
-	deps, err := verifDeps(c, logger, cleanup)
+	deps, err := verifDeps(c, logger, cleanup, stale)
 	if err != nil {
 		return nil, err
 	}
@@ -247,7 +386,7 @@ func VerifStartPair(dir string, primaryQueryTime time.Duration) (vp *VerifPair, 
 	if err != nil {
 		return nil, err
 	}
-	vp = &VerifPair{logf: lf}
+	vp = &VerifPair{logf: lf, stale: &verifStale{}}
 	defer func() {
 		if err != nil {
 			vp.Close()
@@ -269,7 +408,11 @@ func VerifStartPair(dir string, primaryQueryTime time.Duration) (vp *VerifPair, 
 			mod(c)
 			logger := hclog.NewInterceptLogger(&hclog.LoggerOptions{Name: c.NodeName, Level: hclog.Warn, Output: lf})
 			var cl []func()
-			srv, err := verifServer(c, logger, &cl)
+			var st *verifStale
+			if dc == "dc1" {
+				st = vp.stale
+			}
+			srv, err := verifServer(c, logger, &cl, st)
 			if err != nil {
 				for i := len(cl) - 1; i >= 0; i-- {
 					cl[i]()
@@ -289,6 +432,7 @@ func VerifStartPair(dir string, primaryQueryTime time.Duration) (vp *VerifPair, 
 	}); err != nil {
 		return vp, err
 	}
+	vp.stale.srv = vp.P
 	if vp.S, err = mk("dc2", func(c *Config) {
 		c.ACLTokenReplication = true
 		c.ACLReplicationRate = 100
